@@ -31,6 +31,14 @@ well-formedness assumption, no cryptographic assumption):
                    elementary).  The property is about an attacker WITHOUT the key; single-bit flips and
                    the like remain enumerated by the tests.
 
+OPEN FINDING F17 (recorded under property C05).  Every `box*` / `sealOpen` / `objBox*` / `objUnseal` decision below is
+stated with the key `beforenm P pk sk = P.hsalsa (P.dh sk pk) 0¹⁶`, which dryoc computes for EVERY public key.
+libsodium's `crypto_box_beforenm` returns −1 when the X25519 output is all-zero (small-order `pk`), so libsodium's
+`crypto_box_open_*` / `crypto_box_seal_open` REJECT every input for such a key, while dryoc's decision procedure is the
+one stated here with the public constant `HSalsa20(0³², 0¹⁶)` as key — it accepts boxes anyone can compute
+(`C01.boxOpenEasy_accepts_small_order`, `C01.sealOpen_accepts_small_order_epk`).  The decision procedure of this file is
+libsodium's only for public keys whose shared secret is non-zero (`C01.model_eq_sodium_*`).
+
 `expectedTag P key nonce c = P.mac ((P.stream key nonce (32 + c.length)).take 32) c` and
 `cryptXor P key nonce c = xorBytes c ((P.stream key nonce (32 + c.length)).drop 32)` are
 abbreviations defined in `Proofs/SecretBox.lean` (used only in the `*_decision` statements).
